@@ -172,6 +172,18 @@ def canon_impl(m):
 MAX_TIMEOUTS = 2
 
 
+def rejected_program(chk, model, text, ires, oracles):
+    """a generated program the implementation does not read: a fault of the generator -- unless the reader model
+    reads it (the printed-tree theorems say a well-formed printed program reads), then the implementation is at fault"""
+    if model is None or ires[0] in ("Ok", "Other", "Timeout") or hit_recursion_limit(ires):
+        return
+    mres = model.read_many(text)
+    if mres[0] == "Ok":
+        chk.fail("well-formed-program-not-read", {"text": text}, ires[0] + ": " + str(ires[1])[:120],
+                 "Ok: the reader model reads this generated program",
+                 "PYTHONPATH=%s python -c 'import hy; list(hy.read_many(%r))'" % (vlib.REPO, text))
+
+
 class TooManyTimeouts(Exception):
     """the implementation has failed to terminate MAX_TIMEOUTS times: stop generating"""
 
@@ -186,7 +198,7 @@ class Impl:
 
     def read_many(self, text, watchdog=5, reader=None, skip_shebang=False):
         """-> ("Ok", [models]) | ("Lex", msg) | ("Premature", msg) | ("Other", class name, msg) | ("Timeout",)
-        A timeout is reported only if it happens twice in a row, the second time with four times the
+        A timeout is reported only if it happens twice in a row, the second time with three times the
         allowance (the machine may be busy).  After MAX_TIMEOUTS confirmed timeouts the next call raises
         TooManyTimeouts: a reader that does not terminate has been shown, and every further hang would
         cost the full allowance again."""
@@ -194,7 +206,7 @@ class Impl:
             raise TooManyTimeouts()
         r = self._read_many(text, watchdog, reader, skip_shebang)
         if r[0] == "Timeout":
-            r = self._read_many(text, 4 * watchdog, reader, skip_shebang)
+            r = self._read_many(text, 3 * watchdog, reader, skip_shebang)
             if r[0] == "Timeout":
                 self.timeouts += 1
         return r
@@ -338,7 +350,7 @@ STR_BODIES = ["", "a", "hello world", "a\\nb", "\\\\", "\\\"", "say \\\"hi\\\"",
               "[ ] { }", "#_ x", "{", "}", "{x}", "\\a\\b\\f\\v\\0", "\\\nx", "~@", ":", "#[[", "]]", "\\'", "\U0001F600"]
 RAW_BODIES = ["", "a", "\\d+\\.\\d*", "\\\\", "\\q", "a\\\"b", "C:\\\\dir", "{x}", "é", "x\ny", "\\N{x}", "\\x"]
 BYTE_BODIES = ["", "a", "abc", "\\x00\\xff", "\\n", "\\\\", "\\\"", "\\101", "x y", "a\nb", "{}", "\\'"]
-DELIMS = ["", "x", "==", "foo", "-", "a b", "f", "f-x", "t", "t-x", "F", "#", "(", "é", "{", "}", "=f"]
+DELIMS = ["", "x", "==", "py", "foo", "-", "a b", "f", "f-x", "t", "t-x", "F", "#", "(", "é", "{", "}", "=f"]
 BR_CONTENTS = ["", "a", "hello", "]", "]]x", "a]b", "]x", "x]", "[", "[[", "\"", "a\nb", "\nab", "\n\nab", "\r\nab", "\rab", "a\rb",
                "{x}", "{", "}", "\\n", ";", "(", "]=", "]==", "#[[", "é", "日本\U0001F600", "]f", "f]"]
 FLIT = ["", "a", "abc ", " x ", "{{", "}}", "{{x}}", "\\n", "\\\\", "\\\"", "\\x41", "\\N{DIGIT ONE}", "é", "(", ")", ";", "'", "~",
@@ -349,7 +361,8 @@ FSPEC = ["", ">", ">10", "^8", ".2f", "x", " ", "0>5", "{{", "\\n", "é"]
 class Gen:
     """grammar-directed generator of programs (as trees)"""
 
-    def __init__(self, rng, fstrings=True, depth=4, debug=True, rmacros=False):
+    def __init__(self, rng, fstrings=True, depth=4, debug=True, rmacros=False, rtags="RT|KED"):
+        self.rtags = rtags
         self.rmacros = rmacros  # calls of the user-defined reader macros of `macro_reader`
         self.rng = rng
         self.fstrings = fstrings
@@ -372,7 +385,9 @@ class Gen:
 
     def rmacro(self):
         r = self.rng
-        tag = r.choice("RT|K")
+        tag = r.choice(self.rtags)
+        if tag in "ED":
+            return ("rmacro", tag, " " + r.choice(["abc", "x1", "a-b", "foo.bar"]))
         if tag == "R":
             arg = " " * r.choice([1, 1, 2]) + "".join(r.choice("0123456789abcdefABCDEF") for _ in range(6))
         elif tag == "T":
@@ -406,6 +421,9 @@ class Gen:
         if x < 0.9:
             d = r.choice([d for d in DELIMS if not (d == "f" or d.startswith("f-"))])
             c = r.choice(BR_CONTENTS)
+            if len(d) >= 1 and r.random() < 0.35:
+                # a body that ends in "]" + a proper prefix of the delimiter, right before the real closer
+                c = r.choice(["", "m[i", "(get xs k)", "a]b"]) + "]" + d[:r.randrange(0, len(d))]
             if ("]" + d + "]") in c or ("]" + d + "]") in (c + "]" + d):
                 # the closing delimiter must first occur at the end
                 if (c + "]" + d + "]").find("]" + d + "]") != len(c):
@@ -634,6 +652,7 @@ class Render:
             self.stack.pop()
             self.spans.append((start, len(self.out), node))
             self.form_done()
+            self.open_ended = node[1] in "ED"   # these read an identifier: the next character must end it
         elif k == "seq":
             self.guard(node[1][0])
             start = len(self.out)
@@ -804,7 +823,8 @@ def mutate(rng, text):
     return text[:k] + rng.choice(SOUP) + text[k + 1:]
 
 
-CORPUS = ["", " ", "\n", "(", ")", "(a", "(a b)", "'", "'a", "#", "# a", "#_", "#_ a", "#_a", "#*", "#* a", "#*a", "#** a", "#^ a b", "#^ a",
+CORPUS = ["a" * 24 + "..b", "x" * 30 + "..", "(" + "q" * 36 + "..r)", "long-name_" * 4 + "..x.y", "a" * 40 + ".b..c",
+          "", " ", "\n", "(", ")", "(a", "(a b)", "'", "'a", "#", "# a", "#_", "#_ a", "#_a", "#*", "#* a", "#*a", "#** a", "#^ a b", "#^ a",
           "#[[a]]", "#[x[a]x]", "#[[a", "#[x", "#[a]", "#[f[a{b}c]f]", "#[f[{\"]f]\"}]f]", "#[f-{[a]f-{]", "#[t[{a}]t]",
           '"', '"a', '"a"', '"\\', '"\\q"', '"\\x4"', 'b"é"', 'b"\\u00e9"', 'r"\\"', 'rb"\\x"', 'bf"a"', 'x"a"', '1"a"', 'bb"a"',
           'f"', 'f"{', 'f"{a', 'f"{a}', 'f"{a}"', 'f"{a !r}"', 'f"{a !', 'f"{a :', 'f"{a :>{b}}"', 'f"{a :>{b', 'f"}"', 'f"{{', 'f"{{}}"',
@@ -819,7 +839,8 @@ CORPUS = ["", " ", "\n", "(", ")", "(a", "(a b)", "'", "'a", "#", "# a", "#_", "
 def macro_reader():
     """a fresh HyReader with five user-defined reader macros that take their arguments with the documented
     Reader methods:  #R rrggbb (slurp_space + getn 6)   #T xyz (getn 3)   #| text| (chars until "|")
-    #K digits; (peeking to the ";", then getn)   #P form form (parse_one_form twice)"""
+    #K digits; (peeking to the ";", then getn)   #P form form (parse_one_form twice)
+    #E name, #D name (read_ident inside `with end_identifier(";")` / `(")")`)"""
     from hy.reader.hy_reader import HyReader
     from hy.models import Expression, Integer, String, Symbol, Tuple
     R = HyReader()
@@ -857,5 +878,13 @@ def macro_reader():
         b = self.parse_one_form()
         return Expression([Symbol("pair"), a, b])
 
-    R.reader_macros.update({"R": rgb, "T": tla, "|": bar, "K": count, "P": pair})
+    def ident_until(ch):
+        # #E name / #D name: read an identifier that also ends at ";" / ")" (characters that end identifiers anyway)
+        def handler(self, key):
+            self.slurp_space()
+            with self.end_identifier(ch):
+                return Symbol(self.read_ident() or "_", from_parser=True)
+        return handler
+
+    R.reader_macros.update({"R": rgb, "T": tla, "|": bar, "K": count, "P": pair, "E": ident_until(";"), "D": ident_until(")")})
     return R
